@@ -262,6 +262,11 @@ def eager_add_funsor_delta(op, lhs, rhs):
 def eager_independent_delta(delta, reals_var, bint_var, diag_var):
     for i, (name, (point, log_density)) in enumerate(delta.terms):
         if name == diag_var:
+            # The batch variable is bound in this term only; it would stay
+            # free in any other term that depends on it.
+            others = delta.terms[:i] + delta.terms[i + 1 :]
+            if any(bint_var in p.inputs or bint_var in d.inputs for _, (p, d) in others):
+                return None
             bv = Variable(bint_var, delta.inputs[bint_var])
             point = Lambda(bv, point)
             if bint_var in log_density.inputs:
